@@ -310,6 +310,56 @@ def separators(chk, prog):
         chk.ob("R5.document_order", "Value::Object", "objects are stored as an ordered Vec of (key, value)", obj["fields"][0]["ty"].startswith("std::vec::Vec<("), obj["fields"][0]["ty"])
 
 
+def whitespace_placement(chk, prog):
+    """R2.whitespace: insignificant whitespace is allowed before and after every structural character and value.  In the functions that walk
+    the document structure (parse_value, parse_array, parse_object, the entry points) every path from the end of a token — a returned
+    parse_string / parse_value, or a consumed structural character — to the next look at the input passes flush_whitespace(), directly or as the
+    first thing the callee does."""
+    FLUSH = r"Parser::<'a>::flush_whitespace$|Parser::flush_whitespace$"
+    LOOK = r"Parser::<'a>::next$|Parser::next$|Peekable::<I>::(peek|next|next_if|next_if_eq)$"
+    def leading_flush(fn):
+        bb = prog.bodies.get(fn)
+        if not bb:
+            return False
+        fl = [blk for blk, t in bb.calls_to(FLUSH)]
+        looks = [blk for blk, t in bb.calls_to(LOOK)] + [blk for blk, t in bb.calls() if (t.get("resolved") or "").startswith(P) and not core.call_matches(t, FLUSH)
+                                                          and core.re.search(r"::(parse_\w+|next|expect_eof)$", t.get("resolved") or "")]
+        return bool(fl) and core.must_pass(bb, [0], looks, through_nodes=fl, after_from=False) is None
+    starts_clean = {fn for fn in (P + "parse_value", P + "expect_eof") if leading_flush(fn)}
+    roots = [P + "parse_array", P + "parse_object", "humphrey_json::parser::<impl humphrey_json::value::Value>::parse",
+             "humphrey_json::parser::<impl humphrey_json::value::Value>::parse_max_depth"]
+    n = 0
+    for fn in roots:
+        b = prog.bodies.get(fn)
+        if not b:
+            continue
+        fl = [blk for blk, t in b.calls_to(FLUSH)]
+        ends, looks = [], []
+        for blk, t in b.calls():
+            r = t.get("resolved") or t.get("callee") or ""
+            if core.re.search(r"Parser(::<'a>)?::(parse_string|parse_value|parse_literal|parse_array|parse_object)$", r):
+                ends.append(blk)
+                if r not in starts_clean and not r.endswith("parse_string"):
+                    looks.append(blk)
+            elif core.re.search(r"Parser(::<'a>)?::next$", r):
+                ends.append(blk)
+                looks.append(blk)
+            elif core.call_matches(t, LOOK):
+                looks.append(blk)
+            elif core.re.search(r"Parser(::<'a>)?::expect_eof$", r) and r not in starts_clean:
+                looks.append(blk)
+        for e in ends:
+            n += 1
+            tgt = [x for x in looks if x != e] + ([e] if e in b.reachable(b.succs(e)) and e in looks else [])
+            w = core.must_pass(b, [e], tgt, through_nodes=fl)
+            what = core.short(b.term(e).get("resolved") or b.term(e).get("callee") or "").split("::")[-1]
+            chk.ob("R2.whitespace", fn, f"after {what}: whitespace is skipped before the input is looked at again", w is None,
+                   "insignificant whitespace at this position (e.g. between a member name and its `:`) makes a valid document invalid", path=w, where=b.where(e))
+    chk.floor("token ends in the structure walkers", n, 6)
+    chk.ob("R2.whitespace", P + "parse_value", "parse_value skips leading whitespace before it looks at the input", P + "parse_value" in starts_clean,
+           "whitespace before a value is not skipped")
+
+
 def number_gates(chk, prog):
     reachp = panics.reach(prog, ["humphrey_json::parser::<impl humphrey_json::value::Value>::parse"])
     n = 0
@@ -619,6 +669,7 @@ def run(chk):
     chk.assumptions = ["rustc type checking / MIR construction / HIR match tables", "f64::from_str accepts at least every RFC 8259 number"]
     tables_rule(chk, prog)
     separators(chk, prog)
+    whitespace_placement(chk, prog)
     number_gates(chk, prog)
     no_size_caps(chk, prog)
     depth_pairing(chk, prog)
